@@ -85,6 +85,8 @@ def c01(ctx):
     RA.rule_no_skip(ctx, aks)
     RT.rule_value_fwd(ctx, lin)
     RT.rule_window(ctx, lin)
+    RT.rule_deleg(ctx, lin)
+    RT.rule_persist(ctx, lin)
     ctx.floor("qmin", 5)
     ctx.floor("cons", 3)
     ctx.floor("msum", 3)
@@ -151,6 +153,9 @@ def c03(ctx):
     RT.rule_state_owner(ctx, hh)
     RT.rule_value_fwd(ctx, hh)
     RT.rule_window(ctx, hh)
+    RT.rule_deleg(ctx, hh)
+    RT.rule_persist(ctx, hh)
+    RT.rule_post_load(ctx)
     ctx.floor("window", 4)
     ctx.floor("keyid", 3)
     ctx.floor("bm-table", 8)
@@ -189,6 +194,8 @@ def c04(ctx):
     RH.rule_filter(ctx)
     RH.rule_topk(ctx)
     RH.rule_mutators(ctx)
+    RT.rule_deleg(ctx, hh)
+    RT.rule_value_fwd(ctx, hh)
     ctx.floor("keyid", 3)
     ctx.floor("bm-table", 8)
     ctx.floor("keynorm", 4)
@@ -370,6 +377,7 @@ def c02(ctx):
     RA.rule_other_ro(ctx, [ks["merge"]])
     RT.rule_mergeguard(ctx, hll)
     RT.rule_window(ctx, hll)
+    RT.rule_deleg(ctx, hll)
     RT.rule_wrapper_once(ctx, hll)
     RT.rule_state_owner(ctx, hll)
     ctx.floor("nlz", 66)
